@@ -1,12 +1,12 @@
 """C03 — Connection persistence follows the request's keep-alive semantics.
 
-Domain (DESIGN): version {1.0, 1.1} x request Connection header {absent, close, keep-alive, Keep-Alive,
-"close, x", upgrade} x method {GET, HEAD, POST} x request body framing {none, Content-Length, chunked} x
+Domain (DESIGN): version {1.0, 1.1} x request Connection header {absent, close, Close, CLOSE, keep-alive,
+Keep-Alive, KEEP-ALIVE, "close, x", upgrade} x method {GET, HEAD, POST} x request body framing {none, Content-Length, chunked} x
 no_keep_alive {F, T} x handler behaviour {buffered finish, flush+finish, finish before the body is read
 (stream_request_body handler answering from prepare()), explicit `Connection: close` response header,
 stream_request_body handler that writes+flushes in prepare() and finishes in the method after the body}
-= 1080 combinations x transport {fast, slow: the transport accepts no output until all input (request,
-body, pipelined request) was delivered and the loop is quiescent, then everything} = 2160 cases, each
+= 1620 combinations x transport {fast, slow: the transport accepts no output until all input (request,
+body, pipelined request) was delivered and the loop is quiescent, then everything} = 3240 cases, each
 followed by a second pipelined request.  Both tiers enumerate the whole product
 (quick: request delivered in one segment; thorough: x3 segmentations: whole / byte-wise / head|rest);
 Hypothesis additionally samples the product with random segmentation.
@@ -32,14 +32,22 @@ Findings on the current tree (open, see known_findings.d/C03.json + findings_inb
       body framing / early finish (c);  early finish on HTTP/1.1 closes without Connection: close (b).
 With the proposed patches applied to a scratch copy the check is quiet with zero excluded cases.
 
-Sensitivity (quick tier, seed 1, each mutant applied alone to a scratch copy of tornado/; all 9 caught):
+Sensitivity (quick tier, seed 1, each mutant applied alone to a scratch copy of tornado/; all 10 caught):
   _can_keep_alive: HTTP/1.0 keep-alive honoured without body framing   -> C03.persistence / C03.open_but_response_not_self_delimiting
   finish: `_disconnect_on_finish` not set on early finish               -> C03.persistence
   write_headers: Keep-Alive acknowledged for every HTTP/1.0 request     -> C03.keepalive_ack_on_closing_connection
+      (on the tree before the keep-alive-ack repair; since the acknowledgement is conditional on
+      `not _disconnect_on_finish`, dropping only the request-header condition is an equivalent mutant:
+      HTTP/1.0 without keep-alive always has _disconnect_on_finish set.  Dropping both conditions is caught.)
   _can_keep_alive: no_keep_alive ignored                                -> C03.persistence
   _can_keep_alive: HTTP/1.1 `Connection: close` ignored                 -> C03.persistence
   write_headers: `Connection: close` not emitted for HTTP/1.1           -> C03.closing_without_connection_close
   _can_keep_alive: Connection value compared case-sensitively           -> C03.keepalive_ack_on_closing_connection
+  _can_keep_alive: request Connection value lower-cased only in the HTTP/1.0 keep-alive comparison, the
+      HTTP/1.1 branch compares the raw value with "close" (`Connection: Close` / `CLOSE` keeps the connection
+      open, pipelined request served, no `Connection: close`)        -> C03.persistence (stays_open)
+      (found by independent mutation testing and MISSED while `close` was only generated in lower case; now
+      every connection option is enumerated in three spellings; caught at seeds 1, 2, 3 in the enumeration)
   _read_message: `_disconnect_on_finish = not _can_keep_alive(...)` moved behind headers_received(): close
       decision of a header block flushed from prepare() is overwritten, HTTP/1.0 keep-alive connection stays
       open behind a close-delimited body                                -> C03.open_but_response_not_self_delimiting
@@ -64,8 +72,8 @@ from vlib import respmodel as rm
 PROPERTY = "C03"
 READY = True
 RULE = (
-    "full product version(2) x Connection(6) x method(3) x body framing(3) x no_keep_alive(2) x handler "
-    "behaviour(5) = 1080 x transport fast/slow(2) = 2160 cases enumerated (quick: 1 segmentation, thorough: 3) plus Hypothesis samples of "
+    "full product version(2) x Connection(9: absent, close/keep-alive in 3 spellings each, 'close, x', upgrade) x method(3) x body framing(3) x no_keep_alive(2) x handler "
+    "behaviour(5) = 1620 x transport fast/slow(2) = 3240 cases enumerated (quick: 1 segmentation, thorough: 3) plus Hypothesis samples of "
     "the same product with random request segmentation; each case pipelines a second request; "
     "non-trivial = persistence decided by >=2 factors (anything but plain HTTP/1.1 GET without body, "
     "buffered); distinct = SHA-1 of the case"
@@ -77,13 +85,14 @@ ASSUMPTIONS = [
 ]
 TECHNIQUE = "exhaustive enumeration of the factor product + property-based sampling with segmentation; predicate oracle transcribed from the statement"
 LEVEL_TEXT = (
-    "exhaustive over the factor product of the DESIGN (864) extended by a fifth handler behaviour (1080) x fast/slow transport (3 segmentations in the thorough tier) "
+    "exhaustive over the factor product of the DESIGN (864) extended by a fifth handler behaviour and by 3 spellings of each connection option (1620) x fast/slow transport (3 segmentations in the thorough tier) "
     "for one fixed small request/response body per framing; other bodies, timeouts and TLS are not covered"
 )
 SHARDS = 16
 
 VERSIONS = ["1.0", "1.1"]
-CONNS = [None, "close", "keep-alive", "Keep-Alive", "close, x", "upgrade"]
+# connection options are case-insensitive (RFC 9110 7.6.1): every option comes in three spellings
+CONNS = [None, "close", "Close", "CLOSE", "keep-alive", "Keep-Alive", "KEEP-ALIVE", "close, x", "upgrade"]
 METHODS = ["GET", "HEAD", "POST"]
 FRAMINGS = ["none", "cl", "chunked"]
 NKA = [False, True]
